@@ -384,7 +384,7 @@ def judge(c, r, src=None):
         c.hist("route:" + x)
     if "@" in r.get("mutation", ""):
         c.hist("file-variant:" + r["mutation"].rsplit("@", 1)[1])
-    c.count(("mutant", r.get("sha")), nontrivial=oc != "ok" or "+" in r.get("mutation", "") or r.get("mutation", "").split("@")[0] in ("template", "tail", "directed-template", "directed-tail"))
+    c.count(("mutant", r.get("sha")), nontrivial=oc != "ok" or "+" in r.get("mutation", "") or r.get("mutation", "").split("@")[0] in ("template", "tail", "directed-template", "directed-tail", "directed-specifier"))
     if "veneer_restored" in r:
         c.cov["traces_validated_against_impl"] += 1
         if not r["veneer_restored"]:
@@ -480,6 +480,9 @@ def main():
     for tail in I.TAILS + ["behavior B():\n    try:\n        wait\n    interrupt when True:", "scenario Main():\n    setup:", "x = [1,", "require (", "new Object with"]:
         for v, txt in (("as-is", base + tail), ("add-newline", base + tail + "\n"), ("strip", (base + tail).rstrip("\n")), ("no-base", tail)):
             jobs.append(dict(id=len(jobs), text=txt, mutation="directed-tail@" + v, routes=["file", "import"] if v == "as-is" else ["file"]))
+    for sp in I.SPECIFIERS:
+        for head in ("x ", "x = y ", "new Object ", "ego = new Object ", "require x ", "(x) ", "x.y ", "f() "):
+            jobs.append(dict(id=len(jobs), text=base + head + sp + "\n", mutation="directed-specifier", routes=["ast"]))
     c.cov["directed_inputs"] = len(jobs)
     srcs = scenic_sources()
     c.cov["scenic_sources"] = len(srcs)
@@ -487,7 +490,8 @@ def main():
     rng = c.rng
     for i in range(n):
         jobs.append(dict(id=len(jobs), path=rng.choice(srcs), seed=rng.randrange(10 ** 9), extra=rng.choice([0, 0, 0, 1, 2])))
-    res = par("fuzz", jobs, dict(cpu_budget=((1440 // NPROC) if quick else 2100 * 16 // NPROC))   # CPU-seconds per worker: the total work does not depend on the number of workers)
+    # CPU-seconds per worker: the total work does not depend on the number of workers
+    res = par("fuzz", jobs, dict(cpu_budget=((1440 // NPROC) if quick else 2100 * 16 // NPROC)))
     byid = {j["id"]: j for j in jobs}
     for r in sorted(res, key=lambda r: r["id"]):
         judge(c, r, src=byid[r["id"]].get("path"))
